@@ -173,7 +173,9 @@ type engExec struct {
 }
 
 func waitTimers(clk *clock.MockClock, n int) error {
-	for i := 0; i < 200000; i++ {
+	// wall-clock budget, not an iteration count: on a loaded machine a goroutine
+	// may be scheduled late
+	for limit := time.Now().Add(30 * time.Second); time.Now().Before(limit); {
 		if clk.VerifC02TimerCount() == n {
 			return nil
 		}
